@@ -1387,6 +1387,18 @@ def rule_freeze_main(rep, repo):
                label, loc=loc, instance=label)
     except PyRaise:
       rep.ok("R10")
+  # a model that still carries an adaptive scale is refused in BOTH modes:
+  # the default (quantize_model_weights=False, retrain with fixed scales)
+  # hands the model on as "frozen" too
+  try:
+    scenario(False, extra_auto_other=True)
+    rep.fail("R10", unit, "refusal-missing:quantize_model_weights=False",
+             "with quantize_model_weights=False the utility returns a model "
+             "in which a layer class without a creator still has an adaptive "
+             "auto_po2 quantizer", loc=loc,
+             instance="quantize_model_weights=False/adaptive scale left")
+  except PyRaise:
+    rep.ok("R10")
 
 
 def run(rep, repo, tier):
